@@ -102,7 +102,7 @@ def main(tier: str) -> int:
     logins = [l for l in model.labels if model.parsed[l]['kind'] == 'auth'
               and model.parsed[l]['cred']['k'] == 'right'
               and model.parsed[l]['cred']['z'] == cc.NONE]
-    n3 = 600 if quick else 60000
+    n3 = 600 if quick else 20000
     labels_all = model.labels
     for _ in range(n3):
         seq = [rng.choice(logins)] + [rng.choice(labels_all) for _ in range(3)]
